@@ -165,6 +165,13 @@ def hostile_files():
     # for each construct the largest number of nested occurrences whose tree stays within depth 64 is used
     for kind in DEEP_KINDS:
         out.append(('nesting depth 64: %s' % kind, lambda b, kind=kind: deep_file(b, kind)))
+    # definition counts for state variables and struct members too (sums / indices over them must not overflow a narrow integer)
+    for nvar in (255, 256, 257, 300):
+        def build_vars(b, n=nvar):
+            vs = [b.state_var(b.ty('Uint', 256) if i % 2 == 0 else b.ty('Bytes', 32), 'v%d' % i) for i in range(n)]
+            st = b.struct('Big', [(b.ty('Uint', 256), 'm%d' % i) for i in range(n)])
+            return b.source_unit([b.pragma('solidity', '0.8.16'), fam.contract_with(b, vs + [st])]), []
+        out.append(('%d state variables and struct members of 256 bits' % nvar, build_vars))
     for nfun in (0, 1, 2, 255, 256, 257):
         def build(b, nfun=nfun):
             members = [fam.fn_def(b, [], name='f%d' % i) for i in range(nfun)] + [b.function('Constructor', None, [], [], b.block([]))]
@@ -209,8 +216,9 @@ def body(chk):
     items = []
     for i in range(len(files)):
         for ov in (True, False):
-            heavy = 'functions before' in files[i][0]
-            dets = ALL if not heavy else ['constructor_order', 'payable_function', 'private_func_leading_underscore', 'unprotected_selfdestruct', 'memory_to_calldata']
+            heavy = 'functions before' in files[i][0] or 'state variables and struct members' in files[i][0]
+            dets = ALL if not heavy else (['constructor_order', 'payable_function', 'private_func_leading_underscore', 'unprotected_selfdestruct', 'memory_to_calldata'] if 'functions before' in files[i][0]
+                                         else ['pack_storage_variables', 'pack_struct_variables', 'constant_variables', 'immutable_variables', 'private_constant', 'private_vars_leading_underscore', 'sstore'])
             for k in range(0, len(dets), 10):
                 items.append((i, dets[k:k + 10], ov))
     chk.parallel(job, items)
